@@ -186,39 +186,33 @@ Section Exchange.
 End Exchange.
 
 (* ---------------------------------------------------------------- localhost *)
-Lemma localhost_complete aliases host :
-  localhost_checks_unspecified = true ->
-  target_is_local aliases host = true -> is_localhost aliases host = true.
+Lemma localhost_complete idna aliases host :
+  localhost_maps_idna = true -> localhost_strips_zone = true -> localhost_checks_unspecified = true ->
+  target_is_local idna aliases host = true -> is_localhost idna aliases host = true.
 Proof.
-  intros Hf. unfold target_is_local, is_localhost. rewrite Hf.
+  intros Hi Hz Hf. unfold target_is_local, is_localhost. rewrite Hi, Hz, Hf.
   destruct (existsb _ _); [reflexivity|]. rewrite !orb_false_l.
-  destruct (parse_ip (lower host)); [|discriminate]. rewrite andb_true_l. auto.
+  destruct (parse_ip _); [|discriminate]. rewrite andb_true_l. auto.
 Qed.
 
-Lemma localhost_sound aliases host :
-  is_localhost aliases host = true -> target_is_local aliases host = true.
+Lemma localhost_sound idna aliases host :
+  localhost_maps_idna = true -> localhost_strips_zone = true ->
+  is_localhost idna aliases host = true -> target_is_local idna aliases host = true.
 Proof.
-  unfold target_is_local, is_localhost.
+  intros Hi Hz. unfold target_is_local, is_localhost. rewrite Hi, Hz.
   destruct (existsb _ _); [reflexivity|]. rewrite !orb_false_l.
-  destruct (parse_ip (lower host)); [|discriminate].
+  destruct (parse_ip _); [|discriminate].
   destruct (ip_loopback l); [auto|]. rewrite !orb_false_l.
   intro H. apply andb_true_iff in H. tauto.
 Qed.
 
-Lemma localhost_names aliases host :
-  In (lower host) (localhost_seed ++ aliases) -> is_localhost aliases host = true.
+Lemma localhost_names idna aliases host :
+  localhost_maps_idna = true ->
+  In (lower (idna host)) (localhost_seed ++ aliases) -> is_localhost idna aliases host = true.
 Proof.
-  intro H. unfold is_localhost.
-  assert (existsb (str_eqb (lower host)) (localhost_seed ++ aliases) = true) as ->; [|reflexivity].
-  apply existsb_exists. exists (lower host). split; [exact H | apply str_eqb_refl].
-Qed.
-
-(* the gap on a tree whose isLocalhost only tests IsLoopback *)
-Lemma localhost_gap_if_unchecked :
-  localhost_checks_unspecified = false ->
-  target_is_local [] (b "::0") = true /\ is_localhost [] (b "::0") = false.
-Proof.
-  intro H. unfold is_localhost. rewrite H. split; vm_compute; reflexivity.
+  intros Hi H. unfold is_localhost. rewrite Hi.
+  assert (existsb (str_eqb (lower (idna host))) (localhost_seed ++ aliases) = true) as ->; [|reflexivity].
+  apply existsb_exists. exists (lower (idna host)). split; [exact H | apply str_eqb_refl].
 Qed.
 
 (* ---------------------------------------------------------------- authentication *)
